@@ -78,6 +78,8 @@ def verify_contract(ex: Exec, c: api.Contract):
         entry["old"] = old
         if "requires" in c.methods:
             ex.assume(truthy(ex.spec_eval(c, "requires", entry)))
+        if "reveals" in c.methods:
+            ex.spec_eval(c, "reveals", entry)
         try:
             try:
                 ex.exec_block(finfo.node.body, fr)
@@ -105,10 +107,33 @@ def verify_contract(ex: Exec, c: api.Contract):
         vals = dict(params)
         vals["old"] = old
         vals["result"] = ret
+        def lemma_term(mname):
+            # instances of separately proved lemmas (each lemma is its own proof unit), evaluated as ONE term
+            ex.lemma_using = 1
+            ex.merge_depth += 1
+            saved_ctx = len(ex.run.ctx)
+            try:
+                return truthy(ex.spec_eval(c, mname, vals))
+            finally:
+                ex.lemma_using = 0
+                ex.merge_depth -= 1
+                del ex.run.ctx[saved_ctx:]
+
+        if "lemmas" in c.methods:
+            ex.assume(lemma_term("lemmas"))
         if "value" in c.methods:
             ex.oblige("post", eq(ret, ex.spec_eval(c, "value", vals)), finfo.node.lineno, label="post.value")
         for name in c.ensures_names():
-            ex.oblige("post", truthy(ex.spec_eval(c, name, vals)), finfo.node.lineno, label=f"post.{name}")
+            lname = "lemmas_" + name[len("ensures_"):] if name.startswith("ensures_") else None
+            pushed = 0
+            if lname and lname in c.methods:
+                ex.run.ctx.append(lemma_term(lname))
+                pushed = 1
+            try:
+                ex.oblige("post", truthy(ex.spec_eval(c, name, vals)), finfo.node.lineno, label=f"post.{name}")
+            finally:
+                if pushed:
+                    ex.run.ctx.pop()
         diffs = []
         for n in pnames:
             _frame_diff(ex, params[n], old.fields[n], n, c.modifies, diffs)
@@ -127,6 +152,8 @@ def verify_contract(ex: Exec, c: api.Contract):
 def verify_lemma(ex: Exec, lem: api.Lemma):
     ex.cur_func = f"lemma:{lem.name}"
     mod = ex.spec_module(lem.module)
+    uses_code = any(isinstance(n, ast.Call) and isinstance(n.func, ast.Name) and n.func.id == "call"
+                    for n in ast.walk(lem.node))
     from .resolve import FuncInfo
     finfo = FuncInfo(f"{lem.module}::{lem.name}", mod, lem.node)
 
@@ -140,14 +167,21 @@ def verify_lemma(ex: Exec, lem: api.Lemma):
             params[x.arg] = ty.fresh(x.arg)
             ex.on_fresh(params[x.arg])
         ex.input_syms = dict(params)
+        ex.lemma_params = dict(params)
+        ex.lemma_using = 0
         fr.env.update(params)
+        ex.spec_depth += 1
         try:
             ex.exec_block(lem.node.body, fr)
             raise Unsupported(f"lemma {lem.name} returns nothing")
         except ReturnSig as r:
-            ex.oblige("lemma", truthy(r.value), lem.node.lineno, label="lemma")
+            # a lemma that applies contracts of real functions (call(...)) carries the property; a pure lemma about
+            # spec functions is a proof artefact: if it is false the proof is gone, but nothing is claimed about the code
+            ex.oblige("lemma", truthy(r.value), lem.node.lineno, label="lemma", carries=uses_code)
         except RaiseSig as rs:
             ex.oblige("lemma", z3.BoolVal(False), lem.node.lineno, note=f"exception {rs.exc.cls} in lemma", label="lemma.raises")
+        finally:
+            ex.spec_depth -= 1
 
     ex.explore(body)
 
@@ -171,25 +205,38 @@ def discharge(ob: Obligation, timeout_ms=10000, use_cvc5=True):
         ob.verdict, ob.solver, ob.ms = "discharged", "simplifier", 0.0
         return ob
     first = min(timeout_ms, 3000)
-    s = _solver(first)
-    for c in ob.pc:
-        s.add(c)
-    s.add(z3.Not(g))
-    r = s.check()
+    from .run import guarded_check
+    assertions = list(ob.pc) + [z3.Not(g)]
+
+    def on_sat(m):
+        if not _validate_model(m, ob):
+            return {"valid": False}
+        vals = {}
+        for k, v in ob.inputs.items():
+            try:
+                vals[k] = model_value(m, v)
+            except Exception as e:  # noqa
+                vals[k] = f"<unrenderable: {e}>"
+        return {"valid": True, "inputs": vals}
+
+    r, payload = guarded_check(assertions, first, on_sat)
     ob.solver = f"z3-{z3.get_version_string()}"
-    if r == z3.unsat:
+    if r == "unsat":
         ob.verdict = "discharged"
-    elif r == z3.sat:
-        m = s.model()
-        ok = _validate_model(m, ob)
-        if ok:
+    elif r == "sat":
+        p = (payload or {}).get("p") or {}
+        if p.get("valid"):
             ob.verdict = "refuted"
-            ob.model = m
+            ob.model = p.get("inputs")
         else:
             ob.verdict = "unknown"
             ob.note += " [z3 model failed validation]"
     else:
         ob.verdict = "unknown"
+        why = (payload or {}).get("why", "hard timeout (solver ignored its limit)" if r == "hang" else "")
+    s = _solver(first)
+    for c in assertions:
+        s.add(c)
     if ob.verdict == "unknown" and use_cvc5:
         try:
             smt = s.to_smt2()
@@ -206,7 +253,7 @@ def discharge(ob: Obligation, timeout_ms=10000, use_cvc5=True):
                     ob.note += f" [refuted by {name}; no model extracted]"
                     break
     if ob.verdict == "unknown":
-        ob.note += f" [z3: {s.reason_unknown()}]"
+        ob.note += f" [z3: {why}]"
     ob.ms = (time.time() - t0) * 1000
     return ob
 
@@ -231,6 +278,8 @@ def _run_cli(cmd, text, timeout_ms):
         path = fh.name
     try:
         p = subprocess.run(cmd + [path], capture_output=True, text=True, timeout=timeout_ms / 1000 + 5)
+        if "(error" in p.stdout or "(error" in p.stderr:
+            return "unknown"  # a parse problem must never be read as a verdict
         out = p.stdout.strip().splitlines()
         return out[0] if out and out[0] in ("sat", "unsat") else "unknown"
     except Exception:
@@ -251,11 +300,9 @@ def _cvc5(smt, timeout_ms):
 
 def cover_check(ob: Obligation, timeout_ms=3000):
     """Vacuity guard: the path condition of a discharged obligation must be satisfiable."""
-    s = _solver(timeout_ms)
-    for c in ob.pc:
-        s.add(c)
-    r = s.check()
-    return str(r)
+    from .run import guarded_check
+    r, _ = guarded_check(list(ob.pc), timeout_ms)
+    return r
 
 
 # ---------------------------------------------------------------------------------------------
